@@ -13,54 +13,64 @@ from harness import core, rng as hrng, storages as S
 from harness.q import Q, rs
 from harness.props import c07
 
-G = 12
+G = 60
 
 
-def accept_cells(k, p, targets=False):
-    """which grid cells u=(i+1/2)/G make a full reservoir accept the next arrival; also the requested slot ranges"""
-    acc, ranges = [], set()
-    for i in range(G):
-        u = Q(2 * i + 1, 2 * G)
-        d = hrng.Scripted(pyrandom.Random(0), reals=[u], idxs=[0])
-        with d.installed():
-            st = S.make_storage("geom", k, targets, p)
-            for j in range(k):
-                st.update({"id": j}, 1000 + j)
-            before, _ = S.contents(st)
-            st.update({"id": k}, 1000 + k)
-            after, _ = S.contents(st)
-        if after != before:
-            acc.append(i)
-        for kind, r, _ in d.log:
-            if kind == "index":
-                ranges.add(r)
-    return acc, ranges
+def one_step_law(k, p, targets=False):
+    """EXACT law of one update of a full reservoir of the real class: every outcome of every draw it makes is enumerated
+    (index draws over the range it requests; real draws over a grid of G equal cells); returns P(new observation enters),
+    {slot: P(enters at slot)}, requested index ranges, or an error text"""
+    cells = [(Q(2 * i + 1, 2 * G), Fraction(1, G)) for i in range(G)]
+    p_enter = Fraction(0)
+    slots = {}
+    ranges = set()
 
-
-def exact_inclusion(k, p, n):
-    """exact P(arrival t retained after n arrivals) for the real class, t = 0..n-1, by enumerating all scripts"""
-    pe = Fraction(1, k) if p is None else Fraction(p)
-    probs = [Fraction(0)] * n
-    m = n - k
-    total = Fraction(0)
-    for script in itertools.product(range(k + 1), repeat=m):  # 0 reject, j+1 accept slot j
-        w = Fraction(1)
-        for s in script:
-            w *= (1 - pe) if s == 0 else pe / k
-        if w == 0:
-            continue
-        reals = [(Q(pe) / 2 if pe > 0 else Q(0)) if s else (Q(1 + pe) / 2) for s in script]
-        idxs = [s - 1 if s else 0 for s in script]
-        idxs = [i for i, s in zip(idxs, script) if s]
-        d = hrng.Scripted(pyrandom.Random(0), reals=reals, idxs=idxs + [0] * 4)
-        with d.installed():
-            st = S.make_storage("geom", k, False, p)
-            for j in range(n):
-                st.update({"id": j}, None)
+    def scenario(d):
+        st = S.make_storage("geom", k, targets, p)
+        for j in range(k):
+            st.update({"id": j}, 1000 + j)
+        n0 = len(d.trace)
+        st.update({"id": k}, 1000 + k)
         ids, _ = S.contents(st)
-        for t in ids:
-            probs[t] += w
-        total += w
+        return ids, [t for t in d.trace[n0:]]
+    try:
+        for w, (ids, trace), _ in hrng.enumerate_outcomes(scenario, real_choices=cells):
+            for kind, rg in trace:
+                if kind == "index":
+                    ranges.add(rg)
+            if k in ids:
+                p_enter += w
+                slots[ids.index(k)] = slots.get(ids.index(k), Fraction(0)) + w
+            if len(ids) != k:
+                return None, None, None, f"reservoir holds {len(ids)} observations after an update of a full reservoir of size {k}"
+    except Exception as ex:
+        return None, None, None, f"raised {core.err_kind(ex)}: {ex}"
+    return p_enter, slots, ranges, None
+
+
+def exact_inclusion(k, p, n, limit=4000):
+    """exact P(arrival t retained after n arrivals) for the real class, t = 0..n-1: every outcome of every draw the class
+    makes is enumerated with weight 1/range for index draws; a real draw has the two outcomes `<= p` (weight p) and `> p`
+    (weight 1-p), justified by the one-step law probe. Returns None when the outcome tree exceeds `limit`."""
+    pe = Fraction(1, k) if p is None else Fraction(p)
+    reals = [(v, w) for v, w in ((Q(pe) / 2, pe), (Q(1 + pe) / 2, 1 - pe)) if w > 0]
+    probs = [Fraction(0)] * n
+    total = Fraction(0)
+
+    def scenario(d):
+        st = S.make_storage("geom", k, False, p)
+        for j in range(n):
+            st.update({"id": j}, None)
+        return S.contents(st)[0]
+    try:
+        for w, ids, _ in hrng.enumerate_outcomes(scenario, real_choices=reals, limit=limit):
+            for t in ids:
+                probs[t] += w
+            total += w
+    except RuntimeError as ex:
+        if "limit" in str(ex):
+            return None, None
+        raise
     return probs, total
 
 
@@ -87,29 +97,39 @@ def run(tier="quick", seed=0, replay=None):
     core.lean_stage(chk, "C09")
     quick = tier == "quick"
     kmax, extra = (3, 4) if quick else (4, 5)
-    ps = [None, Q(1, 4), Q(1, 3), Q(1, 2), Q(1), Q(0)]
+    ps = [None, Q(1, 4), Q(1, 3), Q(1, 2), Q(2, 3), Q(3, 4), Q(9, 10), Q(1), Q(0)]
     for k in range(1, kmax + 1):
         for p in ps:
             pe = Fraction(1, k) if p is None else Fraction(p)
-            # (a) acceptance probability and slot range
-            acc, ranges = accept_cells(k, p)
-            chk.case({"probe": "accept-grid", "k": k, "p": rs(p) if p is not None else None}, nontrivial=True)
-            if (pe * G).denominator == 1:
-                if len(acc) != pe * G or acc != list(range(len(acc))):
-                    chk.violation("accept-probability",
-                                  f"size {k}, p={pe}: a full reservoir accepts on grid cells {acc} of {G}, i.e. with probability "
-                                  f"{Fraction(len(acc), G)} instead of {pe}", {"k": k, "p": str(pe), "cells": acc})
-            if ranges - {k}:
-                chk.violation("slot-range", f"size {k}: slot drawn from range {sorted(ranges)} instead of {k}",
-                              {"k": k, "ranges": sorted(ranges)})
+            # (a) exact law of one step: enters with probability p, into a uniformly chosen slot
+            p_enter, slots, ranges, err = one_step_law(k, p)
+            chk.case({"probe": "one-step-law", "k": k, "p": rs(p) if p is not None else None}, nontrivial=True)
+            if err:
+                chk.violation("one-step", f"GeometricReservoirStorage(size={k}, constant_probability={None if p is None else pe}): updating a full reservoir {err}",
+                              {"k": k, "p": str(pe)})
+                continue
+            if (pe * G).denominator == 1 and p_enter != pe:
+                chk.violation("accept-probability", f"size {k}, p={pe}: a new observation enters a full reservoir with probability {p_enter} instead of {pe} "
+                              f"(all draw outcomes enumerated; real draws on a {G}-cell grid)", {"k": k, "p": str(pe), "observed": str(p_enter)})
+                continue
+            if p_enter > 0 and any(slots.get(j, 0) != p_enter / k for j in range(k)):
+                chk.violation("slot-uniformity", f"size {k}, p={pe}: the replaced slot is not uniform: {({j: str(v) for j, v in slots.items()})}",
+                              {"k": k, "p": str(pe)})
+                continue
             # (b) exact inclusion probabilities
             for n in range(k, k + extra + 1):
-                if (k + 1) ** (n - k) > 1300:
+                try:
+                    probs, total = exact_inclusion(k, p, n)
+                except Exception as ex:
+                    chk.violation("exception", f"GeometricReservoirStorage(size={k}, constant_probability={pe}) raised {core.err_kind(ex)}: {ex} on a stream of {n}",
+                                  {"k": k, "p": str(pe), "n": n})
+                    break
+                if probs is None:
+                    chk.stat("enumeration_too_large_skipped")
                     continue
-                probs, total = exact_inclusion(k, p, n)
                 chk.case({"exact-distribution": True, "k": k, "p": str(pe), "n": n,
                           "P(retained)": [str(x) for x in probs]}, nontrivial=n > k)
-                chk.stat("scripts_enumerated", (k + 1) ** (n - k))
+                chk.stat("exact_distributions")
                 if total != 1:
                     chk.tie_failure("enumeration", f"script weights sum to {total}")
                 for t in range(n):
